@@ -49,6 +49,9 @@ func (fx *FuncExec) execCall(fn *ssa.Function, st *State, reach *Term, res ssa.V
 		return r
 	case VFunc:
 		all := append(append([]Value{}, args...), []Value{}...)
+		if len(fx.stack) == 1 && fx.con != nil && len(fx.con.Anchors) > 0 {
+			reach = fx.runAnchors(fn, st, reach, fmt.Sprintf("call:%s#%d", shortFuncName(f.fn), fx.callOrdinal(fn, cc, f.fn)), all, src)
+		}
 		r, v := fx.callFunc(st, reach, f.fn, f.bind, all, resType, src)
 		setRes(v)
 		return r
@@ -240,8 +243,24 @@ func (fx *FuncExec) invoke(fn *ssa.Function, st *State, reach *Term, recv Value,
 		return reach, fx.freshValueR("inv", resType, st, reach)
 	}
 	reach = fx.safe(reach, "nil", src, ts.Ne(iv.tag, ts.Int(0)))
+	if (m.Name() == "Error" || m.Name() == "String") && len(args) == 0 {
+		// text for log lines and debug data: contents are not modelled
+		return reach, fx.freshValueR("text", resType, st, reach)
+	}
 	impls := fx.eng.implementers(m)
 	if len(impls) == 0 {
+		// trusted stub for a method of an external interface, e.g. "io.Reader.Read"
+		if recvT := m.Type().(*types.Signature).Recv(); recvT != nil {
+			key := shortType(recvT.Type()) + "." + m.Name()
+			if con := fx.eng.cs.Externs[key]; con != nil {
+				sig := m.Type().(*types.Signature)
+				params := map[string]Value{}
+				for i := 0; i < sig.Params().Len() && i < len(args); i++ {
+					params[sig.Params().At(i).Name()] = args[i]
+				}
+				return fx.applyContractSig(st, reach, con, sig, params, resType, src)
+			}
+		}
 		fx.note("interface call " + m.FullName() + " with no implementer in the package: passed slices havocked, result arbitrary")
 		fx.havocArgs(st, reach, args)
 		return reach, fx.freshValueR("inv."+m.Name(), resType, st, reach)
@@ -354,7 +373,7 @@ func (fx *FuncExec) builtin(st *State, reach *Term, name string, args []Value, c
 	case "ssa:wrapnilchk":
 		return fx.nilCheck(reach, args[0], src), args[0]
 	case "ssa:deferstack":
-		return reach, VOpaque{ts.Int(0), resType}
+		return reach, fx.zeroValue(resType)
 	}
 	fx.unsupported("builtin " + name)
 	return reach, fx.freshValueR("b."+name, resType, st, reach)
@@ -502,4 +521,86 @@ func (fx *FuncExec) doCopy(st *State, reach *Term, args []Value, src string) (*T
 	}
 	fx.heapSet(st, hk, ts.Store(h, d.arr, newArr))
 	return reach, VInt{n}
+}
+
+// runAnchors evaluates the contract's anchored clauses attached to this call
+// (assert@call:<callee>#<k>, ghost@call:<callee>#<k>) in the state just before it.
+func (fx *FuncExec) runAnchors(fn *ssa.Function, st *State, reach *Term, want string, args []Value, src string) *Term {
+	for _, a := range fx.con.Anchors {
+		if normFuncName(a.Anchor) != normFuncName(want) {
+			continue
+		}
+		fx.anchorHit[a.Anchor+"/"+a.Label] = true
+		env := &cenv{fx: fx, fn: fn, st: st, old: fx.entry, con: fx.con, binds: map[string]Value{}, body: true, reach: reach}
+		for i, v := range args {
+			env.binds[fmt.Sprintf("arg%d", i)] = v // the call's arguments (arg0 is the receiver of a method)
+		}
+		switch a.Kind {
+		case "assert":
+			t, err := fx.evalClause(a.Clause, env)
+			if err != nil {
+				fx.addObl("shape", "assert:"+a.Label, err.Error(), reach, fx.ts.False())
+				continue
+			}
+			fx.addObl("assert", a.Label, src+": "+a.Expr, reach, t)
+			reach = fx.ts.And(reach, t)
+		case "assume":
+			t, err := fx.evalClause(a.Clause, env)
+			if err == nil {
+				fx.addFact(reach, t)
+			}
+		case "ghost":
+			func() {
+				defer func() {
+					if r := recover(); r != nil {
+						if ce, ok := r.(cerr); ok {
+							fx.addObl("shape", "ghost:"+a.Label, string(ce), reach, fx.ts.False())
+							return
+						}
+						panic(r)
+					}
+				}()
+				env.params = fx.paramsFor(fn)
+				ex, perr := parseCached(a.Expr)
+				if perr != nil {
+					cfail("%v", perr)
+				}
+				st.ghost["g:"+a.Label] = env.eval(ex)
+				st.wheap["ghost:g:"+a.Label] = true
+			}()
+		}
+	}
+	return reach
+}
+
+// callOrdinal numbers the calls to callee inside fn in source order, from 1.
+func (fx *FuncExec) callOrdinal(fn *ssa.Function, cc *ssa.CallCommon, callee *ssa.Function) int {
+	type site struct {
+		pos int
+		cc  *ssa.CallCommon
+	}
+	var sites []site
+	for _, b := range fn.Blocks {
+		for _, in := range b.Instrs {
+			var c *ssa.CallCommon
+			switch x := in.(type) {
+			case *ssa.Call:
+				c = &x.Call
+			case *ssa.Defer:
+				c = &x.Call
+			case *ssa.Go:
+				c = &x.Call
+			}
+			if c != nil && c.StaticCallee() == callee {
+				sites = append(sites, site{int(in.Pos()), c})
+			}
+		}
+	}
+	sort.Slice(sites, func(i, j int) bool { return sites[i].pos < sites[j].pos })
+	for i, s := range sites {
+		if s.cc == cc {
+			return i + 1
+		}
+	}
+	return 0
 }
